@@ -75,11 +75,30 @@ pub fn run(ctx: &Ctx) -> (Outcome, String, Option<bool>) {
         p.max_steps = 30;
         p.max_txs = 10;
     }
-    let out = super::hist::run_histories(ctx, "hostile-histories", p, ctx.scale(3000, 30000), C09::default);
-    let rule = "Generated histories in adversarial mode: ~43% of transactions mutated (off-by-one values, repeated/missing/spent inputs, dropped or garbage covenants, corrupted or foreign signatures, MAX_COINVAL+1, 256 outputs, fee-1, swapped kind, random data, duplicates, empty transactions, destroyed outputs), zero-valued and maximal pool requests, pool keys in 6 alternative spellings (~35% of requests), every proposer delta class, every fee-multiplier class, undecodable stake documents. Oracle: every call of apply_tx_batch, seal, header, next_unsealed, to_block/from_block runs under catch_unwind (engine built with overflow checks and debug assertions); any panic is a violation keyed by (panic site, message class); a watchdog turns a hang into exit 2. Non-trivial = a case in which >=1 hostile shape reached the STF and the call returned a rejection or sealing survived; distinct by the set of hostile shapes in the case.".to_string();
+    let mut out = super::hist::run_histories(ctx, "hostile-histories", p, ctx.scale(3000, 30000), C09::default);
+    // single transactions of every shape (sizes, covenant weights up to saturation, every multiplier class)
+    let o = crate::runner::run_sharded(
+        ctx,
+        "transaction-shapes",
+        ctx.scale(500, 6000),
+        super::c05::arb_shape,
+        |s, st, shard| {
+            let r = super::c05::check_shape_with(s, st, shard, true);
+            if r.is_ok() {
+                st.nontrivial(h64(format!("{:?}", s).as_bytes()));
+            }
+            r
+        },
+    );
+    out.absorb(o);
+    let rule = "Generated histories in adversarial mode: ~43% of transactions mutated (off-by-one values, repeated/missing/spent inputs, dropped or garbage covenants, corrupted or foreign signatures, MAX_COINVAL+1, 256 outputs, fee-1, swapped kind, random data, duplicates, empty transactions, destroyed outputs), zero-valued and maximal pool requests, pool keys in 6 alternative spellings (~35% of requests), every proposer delta class, every fee-multiplier class, undecodable stake documents. Oracle: every call of apply_tx_batch, seal, header, next_unsealed, to_block/from_block runs under catch_unwind (engine built with overflow checks and debug assertions); any panic is a violation keyed by (panic site, message class); a watchdog turns a hang into exit 2. A second phase applies single faucet transactions of every shape (0-255 outputs, data to 4 KiB, 0-4 covenants whose weights range from 1 to saturation through up to 10 nested 65535-iteration loops, multipliers 0..2^100) and treats any panic as a violation. Non-trivial = a case in which >=1 hostile shape reached the STF and the call returned a rejection or sealing survived; distinct by the set of hostile shapes in the case.".to_string();
     (out, rule, None)
 }
 
 pub fn replay(case: &serde_json::Value) -> Check {
+    if let Ok(s) = serde_json::from_value::<super::c05::Shape>(case.clone()) {
+        let mut st = Stats::default();
+        return super::c05::check_shape_with(&s, &mut st, 200, true);
+    }
     super::hist::replay_history(case, &profile(), C09::default())
 }
